@@ -132,6 +132,15 @@ Proof.
     + rewrite rc_apply_flips_cons. apply IH. intros a Ha. apply HL. cbn; auto.
     + apply IH. intros a Ha. apply HL. cbn; auto.
 Qed.
+Lemma c6_flatten_range_sec i : color_is_site i = true -> inb i = true -> 0 <= c6_flatten i < Z.of_nat CN.
+Proof.
+  intros Hs Hb. pose proof (c6_isite_of i Hs Hb) as Hi. destruct i as [r c]. cbn [fst snd] in Hi.
+  pose proof (c6_flatten_row r c Hi) as [H0 H1]. rewrite c6_inb_unfold in Hb. cbn [fst snd] in Hb.
+  pose proof (c6_rowstart_mono (r + 1) (3 * m + 1) ltac:(unfold c6_isite in Hi; lia) ltac:(lia)) as Hmono.
+  rewrite c6_rowstart_1 in Hmono.
+  assert (0 <= c6_rowstart r) by (unfold c6_rowstart; apply Z.div_pos; nia).
+  pose proof c6_n_eq. lia.
+Qed.
 Definition c6_sop (op : pl) (L : list ridx) : bsf := rc_gop CN op (c6_keys L).
 Lemma c6_keys_klt L : c6_all_sites L -> rc_klt CN (c6_keys L).
 Proof.
@@ -221,7 +230,7 @@ Proof.
   change (c6_neighbours (r, c)) with [(r - 1, c - 1); (r - 1, c); (r, c - 1); (r, c + 1); (r + 1, c); (r + 1, c + 1)].
   cbn [fold_right]. rewrite !rc_cnt_filter, !c6_cnt_col, !c6_site_unfold, !c6_inb_unfold. cbn [fst snd].
   assert (Hd : c = 0 \/ c = 1 \/ 2 <= c) by lia.
-  destruct Hd as [-> | [-> | Hd]]; lia.
+  destruct Hd as [-> | [-> | Hd]]; c6_decide_eqb; cbn [negb andb Z.b2z]; rewrite ?andb_false_r; cbn [Z.b2z]; lia.
 Qed.
 Lemma c6_col_col_odd : Z.odd (rc_pairs (filter inb c6_col) (filter inb c6_col)) = true.
 Proof.
@@ -280,10 +289,10 @@ Proof.
   - intros s s' Hs Hs'. apply in_app_iff in Hs, Hs'.
     destruct Hs as [Hs|Hs], Hs' as [Hs'|Hs']; apply in_map_iff in Hs, Hs';
       destruct Hs as (p & <- & Hp), Hs' as (q & <- & Hq); apply c6_stab_commute; auto.
-  - intros s l Hs Hl. apply in_app_iff in Hs. cbn in Hl.
+  - intros s l Hs Hl. apply in_app_iff in Hs. cbn [In app] in Hl.
     destruct Hs as [Hs|Hs]; apply in_map_iff in Hs; destruct Hs as (p & <- & Hp);
       destruct Hl as [<-|[<-|[]]]; now apply c6_stab_logical.
-  - intros i j Hi Hj. cbn in Hi, Hj. assert (i = 0%nat) by lia. assert (j = 0%nat) by lia. subst. cbn [nth Nat.eqb].
+  - intros i j Hi Hj. cbn [length] in Hi, Hj. assert (i = 0%nat) by lia. assert (j = 0%nat) by lia. subst. cbn [nth Nat.eqb].
     unfold c6_lop. rewrite !c6_bsp_sop by apply c6_col_sites. cbv zeta. rewrite c6_col_col_odd. cbn. auto.
 Qed.
 End ColorValid.
@@ -310,6 +319,14 @@ Proof.
   intros size [r c] [r' c'] Si Bi Sj Bj E. apply c6_flatten_injective_all; auto.
   - rewrite c6_site_unfold0 in Si. unfold color_is_in_bounds in Bi. unfold c6_isite. cbn [fst snd] in *. lia.
   - rewrite c6_site_unfold0 in Sj. unfold color_is_in_bounds in Bj. unfold c6_isite. cbn [fst snd] in *. lia.
+Qed.
+
+Theorem color_flatten_range_all : forall size i, 3 <= size -> size mod 2 = 1 ->
+  color_is_site i = true -> color_is_in_bounds size i = true ->
+  0 <= c6_flatten i < fst (fst (color_n_k_d size)).
+Proof.
+  intros size i Hs Ho Si Bi. pose proof (c6_flatten_range_sec size (size / 2) ltac:(lia) ltac:(lia) i Si Bi) as H.
+  unfold c6_n in H. destruct (color_n_k_d size) as [[n k] d]. cbn [fst]. lia.
 Qed.
 
 (* non-vacuity *)
